@@ -242,3 +242,7 @@ def run(chk, repo):
                f"{'Met-cleaved' if cleaved else 'full'} form must be emitted whenever {own} and must not depend on {other} "
                "(a Met-leading peptide of max_length + 1 residues has a valid cleaved form although the full form is invalid)",
                key=f"{mt.qual}::yield-independent::{'sec' if sec else 'plain'}::{'cleaved' if cleaved else 'full'}", fn=mt.qual)
+    # ------------------------------------------------------------------ shared: option plumbing by name
+    from rules.shared import optname
+    chk.clauses.append('C09.g (shared R-THREAD) an option value bound to a name that is itself a CLI option carries that very option')
+    optname(chk, repo, 'C09.g', ['cli.call_alt_translation'], floor=0)
